@@ -37,7 +37,7 @@ pub fn justification(kind: &str) -> &'static str {
         "e1-floatlit" => "same rule; a floating point literal is f32 or f64 (language reference, Floating Point Numbers) and neither is admitted at this position",
         "e2-drop-arg" | "e2-dup-arg" | "e2-add-arg" => "rule 'wrong argument count': the callee's declared parameter list has a different length",
         "e3-undeclared" => "rule 'unknown ... name': the new identifier is declared nowhere in the script or runtime",
-        "e3-out-of-scope" => "rule 'out-of-scope name': the variable is declared only inside a nested block (language reference, Local Variables: dropped at the end of its scope) and is used outside of it",
+        "e3-out-of-scope" => "rule 'unknown or out-of-scope name': the name is declared by a `let`, a `for`, a pattern binder, a parameter or a block-level import whose scope (language reference, Local Variables: from the declaration to the end of the block that contains it; Imports: the block that contains it) does not include the point of the inserted use, and no other declaration of that name is visible there",
         "e4-drop-field" => "rule 'missing ... record field': the record type of the literal requires the dropped field",
         "e4-dup-field" | "e4-dup-field-decl" => "rule 'duplicate ... record field'",
 "e4-misspell-field" | "e4-extra-field" | "e4-missing-field-access" => "rule 'unknown record field': the record type has no field of that name",
@@ -121,6 +121,16 @@ fn role(name: &'static str) -> Role {
     Role { name, wrap: Wrap::Paren, semi: false }
 }
 
+/// a declaration of a name inside a function and the text region where it is visible
+struct Decl {
+    name: String,
+    region: (usize, usize),
+    /// type as source text ("fn" for an imported function)
+    ty: Option<String>,
+    /// for an imported function: a call with literal arguments
+    call: Option<String>,
+}
+
 struct Gen<'a> {
     files: &'a [SrcFile],
     an: &'a Analysis,
@@ -157,24 +167,42 @@ fn lit_of(t: &T) -> Option<String> {
 
 pub fn edits(files: &[SrcFile], parsed: &Parsed, an: &Analysis, opts: &Opts) -> Vec<Edit> {
     let mut g = Gen { files, an, file: 0, out: vec![], cands: candidates(), multi: HashSet::new(), global_names: HashSet::new(), fnk: FnK::Test };
+    // names visible without qualification in each file: its own items, its
+    // top-level imports, the module names, context variables and runtime constants
+    let mut per_file: Vec<HashSet<String>> = vec![];
     for items in &parsed.files {
+        let mut set = HashSet::new();
         for it in items {
             match it {
                 Item::Fn(f) => {
-                    g.global_names.insert(f.name.name.clone());
+                    set.insert(f.name.name.clone());
                 }
                 Item::Const(c) => {
-                    g.global_names.insert(c.name.name.clone());
+                    set.insert(c.name.name.clone());
                 }
-                _ => {}
+                Item::Rec(r) => {
+                    set.insert(r.name.name.clone());
+                }
+                Item::Enum(e) => {
+                    set.insert(e.name.name.clone());
+                }
+                Item::Import(p, _) => {
+                    set.insert(p.last().unwrap().name.clone());
+                }
+                Item::Test(..) => {}
             }
         }
-    }
-    for (n, _) in opts.ctx_vars.iter().chain(opts.rt_consts.iter()) {
-        g.global_names.insert(n.clone());
+        for f in files {
+            set.insert(f.module.clone());
+        }
+        for (n, _) in opts.ctx_vars.iter().chain(opts.rt_consts.iter()) {
+            set.insert(n.clone());
+        }
+        per_file.push(set);
     }
     for (fi, items) in parsed.files.iter().enumerate() {
         g.file = fi;
+        g.global_names = per_file[fi].clone();
         for it in items {
             if let Some(only) = &opts.only_fn {
                 match it {
@@ -371,6 +399,7 @@ impl<'a> Gen<'a> {
                     }
                 }
                 self.block(&f.body, true);
+                self.scope_edits(f, items, parsed, opts);
                 self.e8_targets(&f.body, parsed, opts);
             }
             Item::Test(name, body, sp) => {
@@ -623,6 +652,160 @@ impl<'a> Gen<'a> {
         }
     }
 
+    // ------------------------------------------------------------ e3: uses outside the declaring scope
+
+    /// Every declaration of the function (parameters, lets, loop variables,
+    /// pattern binders, block-level imports) with the text region in which it
+    /// is visible; every statement boundary of the function is a program
+    /// point; a use of a name is inserted at every point that lies in the
+    /// region of NO declaration of that name (so a shadowed outer variable
+    /// stays usable and produces no mutant).
+    fn scope_edits(&mut self, f: &FnDecl, items: &[Item], parsed: &Parsed, opts: &Opts) {
+        let mut decls: Vec<Decl> = vec![];
+        for (n, t) in &f.params {
+            decls.push(Decl { name: n.name.clone(), region: (f.body.sp.s, f.body.sp.e), ty: Some(self.text(t.sp()).to_string()), call: None });
+        }
+        let mut points: Vec<usize> = vec![];
+        self.scan_block(&f.body, parsed, &mut decls, &mut points);
+        let mut names: Vec<String> = decls.iter().map(|d| d.name.clone()).collect();
+        names.sort();
+        names.dedup();
+        names.retain(|n| !self.global_names.contains(n) && n != "_");
+        for (pi, at) in points.iter().enumerate() {
+            for n in &names {
+                if decls.iter().any(|d| d.name == *n && d.region.0 <= *at && *at < d.region.1) {
+                    continue;
+                }
+                let d = decls.iter().find(|d| d.name == *n).unwrap();
+                self.use_at(*at, pi, d, "at a point outside the block that declares it");
+            }
+        }
+        // a sibling function: the start of its body
+        if opts.only_fn.is_some() {
+            return;
+        }
+        for it in items {
+            let Item::Fn(g) = it else { continue };
+            if g.name.sp == f.name.sp {
+                continue;
+            }
+            let mut gd: Vec<Decl> = g.params.iter().map(|(n, _)| Decl { name: n.name.clone(), region: (0, 0), ty: None, call: None }).collect();
+            let mut gp = vec![];
+            self.scan_block(&g.body, parsed, &mut gd, &mut gp);
+            for (k, n) in names.iter().enumerate() {
+                if gd.iter().any(|d| d.name == *n) {
+                    continue;
+                }
+                let d = decls.iter().find(|d| d.name == *n).unwrap();
+                self.use_at(g.body.sp.s + 1, k, d, &format!("in the sibling function `{}`", g.name.name));
+            }
+        }
+    }
+
+    fn use_at(&mut self, at: usize, rot: usize, d: &Decl, place: &str) {
+        let n = &d.name;
+        if let Some(call) = &d.call {
+            // an imported function: a call of it
+            self.push("e3-out-of-scope", format!("`{call}` (imported inside a block) {place}"), vec![(at, at, format!(" {call};"))]);
+            return;
+        }
+        if d.ty.as_deref() != Some("fn") {
+            self.push("e3-out-of-scope", format!("`{n};` {place}"), vec![(at, at, format!(" {n};"))]);
+        }
+        // one use that would be well-typed if the name were visible
+        let Some(ty) = &d.ty else { return };
+        if ty == "fn" {
+            return;
+        }
+        let mut forms: Vec<String> = vec![format!("let zq_use: {ty} = {n};")];
+        if let Some(T::P(p)) = prim(ty) {
+            forms.push(format!("{n} == {n};"));
+            if INTS.contains(&p) {
+                forms.push(format!("{n} + 0;"));
+                forms.push(format!("emit_{p}({n});"));
+            } else if FLOATS.contains(&p) {
+                forms.push(format!("{n} + 0.0;"));
+                forms.push(format!("emit_{p}({n});"));
+            } else if p == "String" {
+                forms.push(format!("emit_str({n});"));
+            } else {
+                forms.push(format!("emit_{p}({n});"));
+            }
+        }
+        let form = &forms[rot % forms.len()];
+        self.push("e3-out-of-scope", format!("`{form}` {place}"), vec![(at, at, format!(" {form}"))]);
+    }
+
+    fn scan_block(&self, b: &Blk, parsed: &Parsed, decls: &mut Vec<Decl>, points: &mut Vec<usize>) {
+        if !b.synthetic {
+            points.push(b.sp.s + 1);
+        }
+        for (p, _) in &b.imports {
+            let name = p.last().unwrap().name.clone();
+            // callable with literals when the target is a function with primitive parameters
+            let mut call = None;
+            let mut is_fn = false;
+            for items in &parsed.files {
+                for it in items {
+                    if let Item::Fn(g) = it {
+                        if g.name.name == name {
+                            is_fn = true;
+                            let args: Option<Vec<String>> = g
+                                .params
+                                .iter()
+                                .map(|(_, t)| {
+                                    let fi = parsed.files.iter().position(|f| std::ptr::eq(f, items)).unwrap();
+                                    prim(&self.files[fi].text[t.sp().s..t.sp().e]).and_then(|t| lit_of(&t))
+                                })
+                                .collect();
+                            call = args.map(|a| format!("{name}({})", a.join(", ")));
+                        }
+                    }
+                }
+            }
+            decls.push(Decl { name, region: (b.sp.s, b.sp.e), ty: if is_fn { Some("fn".into()) } else { None }, call });
+        }
+        for s in &b.stmts {
+            match s {
+                St::Let(n, t, x, sp) => {
+                    self.scan_expr(x, parsed, decls, points);
+                    decls.push(Decl { name: n.name.clone(), region: (sp.e, b.sp.e), ty: t.as_ref().map(|t| self.text(t.sp()).to_string()), call: None });
+                }
+                St::Expr(x, _) => self.scan_expr(x, parsed, decls, points),
+            }
+            if !b.synthetic {
+                points.push(s.sp().e);
+            }
+        }
+        if let Some(t) = &b.tail {
+            self.scan_expr(t, parsed, decls, points);
+        }
+    }
+
+    fn scan_expr(&self, e: &Ex, parsed: &Parsed, decls: &mut Vec<Decl>, points: &mut Vec<usize>) {
+        let ty_of = |sp_s: usize| self.an.decl_ty.get(&(self.file, sp_s)).filter(|t| !t.has_tv()).map(|t| t.show());
+        match &e.k {
+            EK::For(v, _, b) => decls.push(Decl { name: v.name.clone(), region: (b.sp.s, b.sp.e), ty: ty_of(v.sp.s), call: None }),
+            EK::Match(_, arms, _) => {
+                for a in arms {
+                    if let Some((bs, _)) = &a.binds {
+                        for bnd in bs {
+                            decls.push(Decl { name: bnd.name.clone(), region: (a.pat_sp.e, a.sp.e), ty: ty_of(bnd.sp.s), call: None });
+                        }
+                    }
+                }
+            }
+            _ => {}
+        }
+        let (es, bs) = kids(e);
+        for c in es {
+            self.scan_expr(c, parsed, decls, points);
+        }
+        for b in bs {
+            self.scan_block(b, parsed, decls, points);
+        }
+    }
+
     // ------------------------------------------------------------ blocks
 
     fn block(&mut self, b: &Blk, _fn_body: bool) {
@@ -633,26 +816,7 @@ impl<'a> Gen<'a> {
             self.push("e7-accept-nonverdict", "`accept;` at the start of a block".into(), vec![(at, at, " accept;".into())]);
             self.push("e7-reject-nonverdict", "`reject;` at the start of a block".into(), vec![(at, at, " reject;".into())]);
         }
-        let n = b.stmts.len();
-        for (i, s) in b.stmts.iter().enumerate() {
-            let _ = (i, n);
-            // e3-out-of-scope: names declared only inside nested blocks of this statement
-            let mut inner = vec![];
-            let x = match s {
-                St::Let(_, _, x, _) | St::Expr(x, _) => x,
-            };
-            collect_decl_names(x, &mut inner);
-            inner.sort();
-            inner.dedup();
-            for v in inner {
-                if self.multi.contains(&v) || self.global_names.contains(&v) {
-                    continue;
-                }
-                let sp = s.sp();
-                self.push("e3-out-of-scope", format!("`{v}` used before the statement whose nested block declares it"), vec![(sp.s, sp.s, format!("{v}; "))]);
-                let semi = if self.text(sp).ends_with(';') { "" } else { ";" };
-                self.push("e3-out-of-scope", format!("`{v}` used after the block that declares it"), vec![(sp.e, sp.e, format!("{semi} {v};"))]);
-            }
+        for s in b.stmts.iter() {
             match s {
                 St::Let(name, t, x, sp) => {
                     if let Some(t) = t {
@@ -669,17 +833,6 @@ impl<'a> Gen<'a> {
             }
         }
         if let Some(t) = &b.tail {
-            let mut inner = vec![];
-            collect_decl_names(t, &mut inner);
-            inner.sort();
-            inner.dedup();
-            for v in inner {
-                // (`else if`: nothing can be put in front of the nested `if`)
-                if self.multi.contains(&v) || self.global_names.contains(&v) || b.synthetic {
-                    continue;
-                }
-                self.push("e3-out-of-scope", format!("`{v}` used before the expression whose nested block declares it"), vec![(t.sp.s, t.sp.s, format!("{v}; "))]);
-            }
             let r = if b.synthetic && matches!(t.k, EK::If(..)) && self.text(t.sp).starts_with("if") && b.sp == t.sp {
                 Role { name: "else-if branch", wrap: Wrap::Brace, semi: false }
             } else {
